@@ -56,6 +56,89 @@ let show_err = function
   | EDeltaNonTip -> "delta-non-tip" | EBaseTxCount -> "base-tx-count" | EIdMismatch -> "id-mismatch"
   | ENoChangeNonTip -> "nochange-non-tip" | EAdapt -> "adapt" | EVersion -> "version"
 
+(* ---------- heap-level model: state, denotation text, canonical object graph ---------- *)
+let hs : hstate ref = ref hinit
+let hview_text : string list ref = ref []        (* list-model text of each heap view at hand-out, newest first *)
+let reg : (string * int, int) Hashtbl.t = Hashtbl.create 1024   (* (kind, oid) -> first-seen number, per case *)
+let nreg = ref 0
+let transient : (n * n option) option ref = ref None            (* the overlay of the last reader created *)
+let hreset () = hs := hinit; hview_text := []; Hashtbl.reset reg; nreg := 0; transient := None
+
+(* Canonical text of the object graph reachable from the published chain, every view handed out
+   and the last reader: objects are numbered in first-seen order (numbers persist over the case),
+   '*' marks an object never seen before this dump; the body of an object is printed at its first
+   occurrence in a dump.  harness/cmd/c20/heap.go prints the same for the real object graph. *)
+let dump () : string =
+  let h = !hs.hs_heap in
+  let b = Buffer.create 8192 in
+  let add = Buffer.add_string b in
+  let seen = Hashtbl.create 1024 in
+  let tag kind (i : n) : bool =
+    let key = (kind, ii i) in
+    if not (Hashtbl.mem reg key) then (Hashtbl.add reg key !nreg; incr nreg; add "*");
+    add kind; add (string_of_int (Hashtbl.find reg key));
+    let first = not (Hashtbl.mem seen key) in
+    Hashtbl.replace seen key (); first in
+  let mapn (i : n) = ignore (tag "M" i) in
+  let rec d_diff (i : n) =
+    if tag "D" i then
+      match hget h i with
+      | Some (ODiff (st, no, de, re, d1, mi, d0)) ->
+          add "{";
+          if tag "O" st then begin
+            add "[";
+            List.iter (fun (a, m) -> add (string_of_int a); add ":"; mapn m; add ";")
+              (List.sort compare (List.map (fun (a, m) -> (ii a, m)) (gouter h st)));
+            add "]" end;
+          List.iter (fun m -> add ","; mapn m) [no; de; re; d1; mi];
+          add ","; d_slice false d0; add "}"
+      | _ -> add "?"
+  and d_slice children (s : slice) =
+    match s.s_arr with
+    | Some a when ii s.s_cap > 0 ->
+        let first = tag "A" a in
+        add (Printf.sprintf "/%d/%d" (ii s.s_len) (ii s.s_cap));
+        if first && children then begin
+          add "[";
+          List.iter (fun c -> (match c with CRef o -> d_diff o | _ -> add "?"); add ";") (sl_cells h s);
+          add "]" end
+    | _ -> add "-" in
+  let d_entry (i : n) =
+    if tag "E" i then
+      match hget h i with
+      | Some (OEntry p) ->
+          add "{";
+          if tag "B" p.p_blk then
+            (match hget h p.p_blk with
+             | Some (OBlock (hdr, txs, rcs)) ->
+                 add "{"; ignore (tag "H" hdr); add ","; d_slice false txs; add ","; d_slice false rcs; add "}"
+             | _ -> add "?");
+          add ",";
+          if tag "S" p.p_su then
+            (match hget h p.p_su with Some (OSU d) -> add "{"; d_diff d; add "}" | _ -> add "?");
+          add ",";
+          (match p.p_cls with None -> add "nil" | Some m -> mapn m);
+          add ","; d_slice true p.p_txd; add "}"
+      | _ -> add "?" in
+  let rec d_node (o : n option) =
+    match o with
+    | None -> add "nil"
+    | Some i ->
+        if tag "N" i then
+          match hget h i with
+          | Some (ONode (e, p)) -> add "{"; d_entry e; add ","; d_node p; add "}"
+          | _ -> add "?" in
+  let d_view (lbl : string) ((hd, k) : view) =
+    add lbl; d_node hd; add (Printf.sprintf "/%d|" (int_of_nat k)) in
+  d_view "C:" !hs.hs_cur;
+  List.iter (d_view "V:") (List.rev !hs.hs_views);
+  (match !transient with
+   | Some (d, c) -> add "R:"; d_diff d; add ","; (match c with None -> add "nil" | Some m -> mapn m); add "|"
+   | None -> ());
+  Buffer.contents b
+
+let last_dump = ref ""
+
 (* state *)
 let cur : entry list ref = ref []
 let hist : entry list list ref = ref [[]]          (* newest first; index from the end *)
@@ -90,7 +173,7 @@ let answer_reads r specb spect freshb fresht (qs : (query * n option) list) =
 let () =
   read_lines (fun line ->
     (match words line with
-     | ["reset"] -> cur := []; hist := [[]]; Hashtbl.reset views; nviews := 0; print_endline "ok"
+     | ["reset"] -> cur := []; hist := [[]]; Hashtbl.reset views; nviews := 0; hreset (); print_endline "ok"
      | "apply" :: kind :: bn :: bt :: opc :: cls :: rest ->
          let u = match kind, rest with
            | "B", [id; fault; items] -> UBlock { ub_id = ni (int_of_string id); ub_items = parse_items items; ub_fault = ni (int_of_string fault) }
@@ -100,6 +183,7 @@ let () =
          let o = Apply (u, ni (int_of_string bn), ni (int_of_string bt), ni (int_of_string opc), parse_pairs cls) in
          let (c', out) = step !cur o in
          push c';
+         hs := fst (hstep !hs (HOp o)); transient := None;
          (match out with
           | OApply (RErr e) -> print_endline ("err " ^ show_err e)
           | OApply RNoop -> print_endline "noop"
@@ -109,12 +193,15 @@ let () =
      | ["advance"; n] ->
          let (c', out) = step !cur (AdvanceTo (ni (int_of_string n))) in
          push c';
+         hs := fst (hstep !hs (HOp (AdvanceTo (ni (int_of_string n))))); transient := None;
          (match out with OAdvance b -> print_endline (if b then "adv t" else "adv f") | _ -> failwith "adv out");
          print_endline ("chain " ^ show_chain !cur)
      | ["snap"; n] ->
          let n = int_of_string n in
          let v = snapshot !cur (ni n) in
          let id = !nviews in incr nviews; Hashtbl.replace views id v;
+         hs := fst (hstep !hs (HOp (Snapshot (ni n)))); transient := None;
+         hview_text := show_chain v :: !hview_text;
          let aligned = n > 0 && view_aligned (ni (n - 1)) v in
          Printf.printf "view %d %s %s\n" id (if aligned then "1" else "0") (show_chain v)
      | "view" :: entries ->
@@ -129,6 +216,36 @@ let () =
          Printf.printf "view %d\n" id
      | ["snapat"; j; n] ->
          print_endline (show_chain (snapshot (hist_at (int_of_string j)) (ni (int_of_string n))))
+     (* heap level: digest of the canonical object graph + the model's own cross-checks (the heap's
+        published chain denotes the list model's chain; every view handed out still denotes what the
+        list model handed out) *)
+     | ["hdump"] ->
+         let d = dump () in
+         last_dump := d;
+         let h = !hs.hs_heap in
+         let bad = ref "ok" in
+         if show_chain (denote_view h !hs.hs_cur) <> show_chain !cur then bad := "cur-denotes-another-chain";
+         List.iteri (fun i (v, t) -> if show_chain (denote_view h v) <> t then bad := Printf.sprintf "view-%d-denotes-another-chain" i)
+           (List.rev (List.combine !hs.hs_views !hview_text));
+         Printf.printf "hd %s %d %s\n" (Digest.to_hex (Digest.string d)) (String.length d) !bad
+     | ["hdrop"] -> transient := None; print_endline "ok"
+     | ["hdumpfull"] -> print_endline !last_dump
+     | ["hview"; i] -> print_endline (show_chain (denote_view !hs.hs_heap (nth_view !hs (nat_of_int (int_of_string i)))))
+     | "hstate" :: vi :: b :: rest ->
+         let o = match rest with
+           | [] -> HStateAt (nat_of_int (int_of_string vi), ni (int_of_string b))
+           | [i] -> HStateBefore (nat_of_int (int_of_string vi), ni (int_of_string b), ni (int_of_string i))
+           | _ -> failwith "hstate" in
+         let (s', out) = hstep !hs o in
+         hs := s';
+         (match out with
+          | HOState (Inl SNotFound) -> transient := None; print_endline "err notfound"
+          | HOState (Inl SIndexOOB) -> transient := None; print_endline "err oob"
+          | HOState (Inl SBroken) -> transient := None; print_endline "err broken"
+          | HOState (Inr (d, c)) ->
+              transient := Some (d, c);
+              Printf.printf "ok %s %s\n" (show_diff (denote_diff !hs.hs_heap d)) (show_pairs (gcls !hs.hs_heap c))
+          | _ -> failwith "hstate out")
      | ["nhist"] -> print_endline (string_of_int (List.length !hist))
      | ["tx"; vid; h] ->
          (match tx_by_hash (Hashtbl.find views (int_of_string vid)) (ni (int_of_string h)) with
